@@ -75,6 +75,8 @@
 //!
 //! For further details on how to use the cache, see the [LruCache] struct.
 
+#![allow(unexpected_cfgs)]
+
 use std::borrow::Borrow;
 use std::fmt::{self, Debug, Formatter};
 use std::hash::{BuildHasher, Hash};
@@ -94,6 +96,11 @@ mod entry;
 mod error;
 mod iter;
 mod mem_size;
+
+#[cfg(lru_mem_verif)]
+mod verif;
+#[cfg(lru_mem_verif)]
+pub use verif::{VerifNode, VerifStructure};
 
 /// An LRU (least-recently-used) cache that stores values associated with keys.
 /// Insertion, retrieval, and removal all have average-case complexity in O(1).
